@@ -3,7 +3,8 @@
    listener error; the model never panics or runs out of fuel), ServerStruct.v (conservation of
    connections), ServerInv.v (a well-behaved connection is never dropped) and ServerNonint.v. *)
 From ZV Require Import Server.Server Server.ServerSpec Server.ServerStruct Server.ServerInv
-  Server.ServerSurvive Server.ServerFuel Server.ServerLocal Server.ServerNonint Server.ServerExamples.
+  Server.ServerSurvive Server.ServerFuel Server.ServerLocal Server.ServerNonint Server.ServerThms
+  Server.ServerExamples.
 
 (* For every service and every script — garbage, truncated frames, oversized messages, read and
    write errors, end of stream at any moment, on any number of connections — the only way the loop
@@ -39,10 +40,7 @@ Theorem C09_healthy_never_dropped :
   forall (E : list (eev P)) (s0 : sstate P) (s : sv P) (T : list (tev P)),
   clean P c E -> input_of P false c E = wire fs ->
   exec P E (init_sv P s0) = (s, T) -> dcount P c T = 0.
-Proof.
-  intros P Hs c fs H1 H2 H3 E s0 s T H4 H5 H6.
-  exact (proj1 (connection_view P Hs c fs H1 H2 H3 E s0 s T H4 H5 H6)).
-Qed.
+Proof. exact healthy_never_dropped. Qed.
 Print Assumptions C09_healthy_never_dropped.
 
 (* Non-interference, for services with per-connection state ([local]: the answer depends on the call
@@ -72,10 +70,7 @@ Print Assumptions C09_noninterference.
 Theorem C09_undecodable_never_reaches_service :
   forall (P : params) (s : sv P) cs idx st s' t,
   on_call P s cs idx (Msg None) = (st, s', t) -> sst s' = sst s /\ invokes P t = [].
-Proof.
-  intros P s cs idx st s' t H. unfold on_call in H.
-  destruct (nth_error cs idx); inversion H; subst; split; reflexivity.
-Qed.
+Proof. exact undecodable_never_reaches_service. Qed.
 Print Assumptions C09_undecodable_never_reaches_service.
 
 (* Non-vacuity: connection 0 sends garbage ('!' does not decode) and is dropped; connection 1 sends
